@@ -176,7 +176,8 @@ def absorb(res: core.Result, part: str, run_ref: str, out: Dict[str, Any], confi
     cov = res.coverage
     cov["evaluations"] = cov.get("evaluations", 0) + st.executions
     cov["states"] = cov.get("states", 0) + st.nodes + out["configs"]
-    cov["transitions"] = cov.get("transitions", 0) + st.transitions
+    # one root->configuration edge per configuration plus one edge per choice taken
+    cov["transitions"] = cov.get("transitions", 0) + st.transitions + out["configs"]
     cov["traces_validated_against_impl"] = cov.get("traces_validated_against_impl", 0) + st.executions
     cov["distinct_nontrivial"] = cov.get("distinct_nontrivial", 0) + len(st.digests)
     cov.setdefault("samples", [])
